@@ -94,9 +94,10 @@ func smallLists(tier string) []chunkList {
 		// a converter may emit chunks with empty content (converters.go appends them unfiltered)
 		{name: "zero-mid", zero: true, chunks: []chunk{{c2s, "a", 1, ""}, {s2c, "", 2, ""}, {c2s, "b", 3, "t/z"}}},
 	}
+	// chunk times that go back (a chunk earlier than its predecessor, a chunk before the stream's first packet)
+	l = append(l, chunkList{name: "time-back", chunks: []chunk{{c2s, "a", 100, ""}, {s2c, "b", 50, ""}, {c2s, "c", -20, "neg"}}})
 	if tier == "thorough" {
 		l = append(l,
-			chunkList{name: "time-back", chunks: []chunk{{c2s, "a", 100, ""}, {s2c, "b", 50, ""}, {c2s, "c", -20, "neg"}}},
 			chunkList{name: "zero-run", zero: true, chunks: []chunk{{c2s, "a", 1, ""}, {c2s, "", 2, ""}, {c2s, "b", 3, ""}}},
 		)
 	}
